@@ -12,7 +12,8 @@ From TungModel.proofs Require Import CloseP.
    write_refused r       := r = ResUnit (RErr (EProtocol SendAfterClosing)) \/ r = ResUnit (RErr EAlreadyClosed)
    no_raw ops            := forall f, ~ In (OpWrite (MFrame f)) ops
    close_received rs     := some result in rs is ResMsg (ROk (MClose _))
-   closed_reported rs    := some result in rs is Res* (RErr EConnectionClosed)
+   is_cc r               := r is ResMsg (RErr EConnectionClosed) or ResUnit (RErr EConnectionClosed)
+   closed_reported rs    := some result in rs satisfies is_cc
    transport_ended log   := log contains EvRead RdEof, EvRead (RdErr ConnReset), EvWrite _ [] or
                             EvWriteErr _ ConnReset *)
 
@@ -48,5 +49,143 @@ Proof.
   eexists. split; [left; reflexivity|reflexivity].
 Qed.
 
+(* (b) after a read returned Message::Close, no later read returns Ok (any history `ops`, raw frames
+   included, may lie between the Close and that read) *)
+Theorem C03_b_no_message_after_close :
+  forall role part cfg x0 w0 ops rs x w,
+    ctx_new role part cfg = Some x0 -> w_log w0 = [] ->
+    run_ops x0 ops w0 = (rs, x, w) ->
+    close_received rs = true ->
+    forall r x' w', run_op x OpRead w = (r, x', w') -> forall m, r <> ResMsg (ROk m).
+Proof. exact b_no_message_after_close. Qed.
+
+(* non-vacuity: a server history in which a Close is received, then ConnectionClosed is reported *)
+Definition ex_w1 : world := mkWorld [RdData [136; 128; 0; 0; 0; 0]] [WrAccept 100] [FlOk; FlOk] [] [].
+Example C03_b_nonvacuous :
+  exists x0 rs x w, ctx_new Server [] ex_cfg = Some x0 /\ w_log ex_w1 = [] /\
+    run_ops x0 [OpRead] ex_w1 = (rs, x, w) /\ close_received rs = true.
+Proof.
+  do 4 eexists. split; [reflexivity|]. split; [reflexivity|].
+  split; [vm_compute; reflexivity|]. vm_compute. reflexivity.
+Qed.
+
+(* (e) after any call returned ConnectionClosed, every later read and write returns AlreadyClosed and
+   changes nothing *)
+Theorem C03_e_already_closed :
+  forall role part cfg x0 w0 ops rs x w,
+    ctx_new role part cfg = Some x0 -> w_log w0 = [] ->
+    run_ops x0 ops w0 = (rs, x, w) ->
+    closed_reported rs = true ->
+    run_op x OpRead w = (ResMsg (RErr EAlreadyClosed), x, w) /\
+    forall m, run_op x (OpWrite m) w = (ResUnit (RErr EAlreadyClosed), x, w).
+Proof. exact e_already_closed. Qed.
+
+Example C03_e_nonvacuous :
+  exists x0 rs x w, ctx_new Server [] ex_cfg = Some x0 /\ w_log ex_w1 = [] /\
+    run_ops x0 [OpRead; OpRead] ex_w1 = (rs, x, w) /\ closed_reported rs = true.
+Proof.
+  do 4 eexists. split; [reflexivity|]. split; [reflexivity|].
+  split; [vm_compute; reflexivity|]. vm_compute. reflexivity.
+Qed.
+
+(* (f) can_write / can_read agree with what write / read then do.  Stated for EVERY context x and
+   world w (in particular every reachable one):
+   - the queries return is_active / can_read of the state and change nothing;
+   - can_write = false: after any further history every write is refused and changes nothing;
+   - can_read = false: after any further history no read delivers a message;
+   - can_write = true: write answers Ok, an Io error or WriteBufferFull (never a closing error);
+   - can_read = true: read is not refused (no AlreadyClosed / ConnectionClosed / ReceivedAfterClosing). *)
+Theorem C03_f_can :
+  forall x w,
+    run_op x OpCanWrite w = (ResBool (is_active (x_state x)), x, w) /\
+    run_op x OpCanRead w = (ResBool (can_read (x_state x)), x, w) /\
+    (is_active (x_state x) = false ->
+     forall ops rs x' w', run_ops x ops w = (rs, x', w') ->
+     forall m, exists r, run_op x' (OpWrite m) w' = (r, x', w') /\ write_refused r) /\
+    (can_read (x_state x) = false ->
+     forall ops rs x' w', run_ops x ops w = (rs, x', w') ->
+     forall r x'' w'', run_op x' OpRead w' = (r, x'', w'') -> forall m, r <> ResMsg (ROk m)) /\
+    (is_active (x_state x) = true ->
+     forall m r x' w', run_op x (OpWrite m) w = (r, x', w') ->
+     r = ResUnit (ROk tt) \/ (exists k, r = ResUnit (RErr (EIo k))) \/
+     (exists f, r = ResUnit (RErr (EWriteBufferFull f)))) /\
+    (can_read (x_state x) = true ->
+     forall r x' w', run_op x OpRead w = (r, x', w') ->
+     r <> ResMsg (RErr EAlreadyClosed) /\ r <> ResMsg (RErr EConnectionClosed) /\
+     r <> ResMsg (RErr (EProtocol ReceivedAfterClosing))).
+Proof. exact f_can. Qed.
+
+(* (d) while no Close has been received: no call reports ConnectionClosed; a call during which the
+   transport read returned EOF answers ResetWithoutClosingHandshake; one during which the transport
+   read (resp. write) failed with ConnectionReset / wrote zero bytes answers that Io error.
+   `evs` is the slice of the log produced by the call. *)
+Theorem C03_d_reset :
+  forall role part cfg x0 w0 ops rs x w,
+    ctx_new role part cfg = Some x0 -> w_log w0 = [] ->
+    run_ops x0 ops w0 = (rs, x, w) ->
+    close_received rs = false ->
+    forall o r x' w' evs, run_op x o w = (r, x', w') -> w_log w' = w_log w ++ evs ->
+      is_cc r = false /\
+      (In (EvRead RdEof) evs -> r = ResMsg (RErr (EProtocol ResetWithoutClosingHandshake))) /\
+      (In (EvRead (RdErr ConnReset)) evs -> r = ResMsg (RErr (EIo ConnReset))) /\
+      (forall n, In (EvWrite n []) evs \/ In (EvWriteErr n ConnReset) evs ->
+                 r = ResMsg (RErr (EIo ConnReset)) \/ r = ResUnit (RErr (EIo ConnReset))).
+Proof. exact d_reset. Qed.
+
+(* non-vacuity: EOF on a fresh client *)
+Definition ex_w3 : world := mkWorld [RdEof] [] [] [] [].
+Example C03_d_nonvacuous :
+  exists x0 r x' w' evs, ctx_new Client [] ex_cfg = Some x0 /\ w_log ex_w3 = [] /\
+    run_ops x0 [] ex_w3 = ([], x0, ex_w3) /\ close_received [] = false /\
+    run_op x0 OpRead ex_w3 = (r, x', w') /\ w_log w' = w_log ex_w3 ++ evs /\ In (EvRead RdEof) evs.
+Proof.
+  do 5 eexists. split; [reflexivity|]. split; [reflexivity|]. split; [reflexivity|].
+  split; [reflexivity|]. split; [vm_compute; reflexivity|]. split; [reflexivity|].
+  right. left. reflexivity.
+Qed.
+
+(* (c) any call that returns ConnectionClosed: a Close was received before, and either nothing is
+   left to send (write buffer empty, nothing parked) with this endpoint's Close as the last queued
+   frame, or the transport ended; for a client the transport ended. *)
+Theorem C03_c_clean_close_sound :
+  forall role part cfg x0 w0 ops rs x w,
+    ctx_new role part cfg = Some x0 -> w_log w0 = [] -> no_raw ops ->
+    run_ops x0 ops w0 = (rs, x, w) ->
+    forall o r x' w', run_op x o w = (r, x', w') -> is_cc r = true ->
+      close_received rs = true /\
+      ((c_out (x_codec x') = [] /\ x_additional x' = None /\
+        exists pre c, queued (w_log w') = pre ++ [c] /\ h_opcode (f_hdr c) = OCtl Close) \/
+       transport_ended (w_log w') = true) /\
+      (role = Client -> transport_ended (w_log w') = true).
+Proof. exact c_clean_close_sound. Qed.
+
+Example C03_c_nonvacuous :
+  exists x0 rs x w r x' w', ctx_new Server [] ex_cfg = Some x0 /\ w_log ex_w1 = [] /\
+    no_raw [OpRead] /\ run_ops x0 [OpRead] ex_w1 = (rs, x, w) /\
+    run_op x OpRead w = (r, x', w') /\ is_cc r = true.
+Proof.
+  do 7 eexists. split; [reflexivity|]. split; [reflexivity|].
+  split; [intros f [H|[]]; discriminate|]. split; [vm_compute; reflexivity|].
+  split; [vm_compute; reflexivity|]. reflexivity.
+Qed.
+
+(* "after the history ops1" above means "later in the same history": the results of a longer
+   history split at any operation into the results of the prefix, that operation run from the
+   configuration the prefix reached, and the rest *)
+Theorem C03_history_split :
+  forall ops1 o ops2 x0 w0 rs x w,
+    run_ops x0 (ops1 ++ o :: ops2) w0 = (rs, x, w) ->
+    exists rs1 x1 w1 r x1' w1' rs2,
+      run_ops x0 ops1 w0 = (rs1, x1, w1) /\ run_op x1 o w1 = (r, x1', w1') /\
+      run_ops x1' ops2 w1' = (rs2, x, w) /\
+      rs = rs1 ++ (r, blen (w_log w1')) :: rs2 /\ length rs1 = length ops1.
+Proof. exact run_ops_split. Qed.
+
 Print Assumptions C03_a_no_write_after_close.
 Print Assumptions C03_a_close_last_queued.
+Print Assumptions C03_b_no_message_after_close.
+Print Assumptions C03_e_already_closed.
+Print Assumptions C03_f_can.
+Print Assumptions C03_d_reset.
+Print Assumptions C03_c_clean_close_sound.
+Print Assumptions C03_history_split.
